@@ -52,6 +52,8 @@ inline std::vector<std::string> split(const std::string& line)
 // result line, not the batch.
 // ---------------------------------------------------------------------------------------
 #include <csignal>
+#include <execinfo.h>
+#include <exception>
 #include <cstdlib>
 #include <cstring>
 #include <functional>
@@ -88,6 +90,26 @@ inline int run_cases(const std::function<std::string(const std::string&)>& handl
         if (pid == 0)
         {
             close(fds[0]);
+            // an exception escaping a framework thread ends the process: say where it came from
+            std::set_terminate([] {
+                void* frames[64];
+                int n = backtrace(frames, 64);
+                fprintf(stderr, "PV-TERMINATE backtrace (%d frames):\n", n);
+                backtrace_symbols_fd(frames, n, 2);
+                try
+                {
+                    if (auto e = std::current_exception())
+                        std::rethrow_exception(e);
+                }
+                catch (const std::exception& ex)
+                {
+                    fprintf(stderr, "PV-TERMINATE what(): %s\n", ex.what());
+                }
+                catch (...)
+                {
+                }
+                abort();
+            });
             FILE* out = fdopen(fds[1], "w");
             for (size_t i = next; i < cases.size(); ++i)
             {
